@@ -2,6 +2,7 @@ CONSTANTS
   Data = {"d1", "d2", "d3"}
   MaxGroups = 3
   MaxDelay = 1
+  MaxLayerOps = 3
   AttrMenu <- c_AttrMenu
   Filters <- c_Filters
 INIT Init
